@@ -473,7 +473,7 @@ func (m *Model) Pull(s *MSub, max int, resp []RecvMsg, t0, t1 time.Time) *Violat
 			}
 			// find an unbound expected delivery for (s,msg)
 			best := -1
-			var ties []*ED
+			var ties, plausible []*ED
 			for _, x := range s.EDs {
 				if x.Msg == msg && x.AckID == "" && !seen[x] && x.State != stGone {
 					// prefer a definite, eligible expectation over an optional (fuzzy) one so
@@ -490,10 +490,21 @@ func (m *Model) Pull(s *MSub, max int, resp []RecvMsg, t0, t1 time.Time) *Violat
 							}
 						}
 					}
+					if score >= 2 {
+						plausible = append(plausible, x)
+					}
 					if score > best {
 						best, e = score, x
-						ties = ties[:0]
-					} else if score == best {
+					}
+				}
+			}
+			// every other plausible candidate is a tie: which of several rows of one message
+			// an unknown ack id belongs to cannot be told from the response, whatever the
+			// scores (they only decide which expectation is consumed first)
+			ties = ties[:0]
+			if best >= 2 {
+				for _, x := range plausible {
+					if x != e {
 						ties = append(ties, x)
 					}
 				}
